@@ -23,6 +23,7 @@ mod c11;
 mod c12;
 mod c13;
 mod c11_live;
+mod c11f;
 mod c14s;
 mod c15;
 mod c15f;
@@ -87,6 +88,7 @@ pub fn run(engine: &str, toks: Vec<Tok>) -> Vec<Tok> {
         "c15_make_auth" => c15::make_auth(toks),
         "c15_udp" => c15::udp(toks),
         "c11_live" => c11_live::run(toks),
+        "c11_front" => c11f::run(toks),
         _ => panic!("unknown engine {}", engine),
     }
 }
